@@ -58,6 +58,18 @@ func c13Enumerate(tier string, emit func(*eng.Case)) {
 	ora.EnumDocs(starts, alpha, maxE, func(d *ora.DocModel, edits int) {
 		emit(caseFromModel("configs", d, atoms, c13URL))
 	})
+	// documents of the other checks (quick: every 5th document of the cross corpus)
+	every := 5
+	if tier == "thorough" {
+		every = 1
+	}
+	crossEmit(tier, "configs", every, func(c *eng.Case) {
+		if c.URL == "" {
+			c.URL = c13URL
+		}
+		c.Algo = 0
+		emit(c)
+	})
 	if tier != "thorough" {
 		// quick: additionally every pair that includes a pager atom, in S1
 		pagers := ora.AtomIndex(atoms, "PAGER", "PAGER2")
@@ -146,16 +158,17 @@ func init() {
 	eng.Register(&eng.Prop{
 		ID:        "C13",
 		DesignRef: "§5 C13",
-		Rule: "corpus = S1,S2 with <= 1 insertion (quick; plus all pairs containing a pager atom) / <= 2 insertions (thorough) over 26 atoms chosen for what the logging code walks (tables, images, embeds, three pagers, a teaser list with 16 equally scored next-links, visibility special cases (fallback-image, aria-hidden), multi-label comment block, schema.org item); each document is executed under all 128 configurations (16 log-flag sets x URL nil/set x SkipPagination x 2 algorithms). " +
+		Rule: "corpus = S1,S2 with <= 1 insertion (quick; plus all pairs containing a pager atom) / <= 2 insertions (thorough) over 26 atoms chosen for what the logging code walks (tables, images, embeds, three pagers, a teaser list with 16 equally scored next-links, visibility special cases (fallback-image, aria-hidden), multi-label comment block, schema.org item); each document is executed under all 128 configurations (16 log-flag sets x URL nil/set x SkipPagination x 2 algorithms)." + crossRule + " (quick: every 5th document of it) " +
 			"Oracle: Title/Text/HTML/WordCount/ContentImages/MarkupInfo identical across the 64 configurations of a URL class; PaginationInfo identical across flag sets for fixed (URL, skip, algorithm) and empty when skipped or without URL; Result.URL = supplied URL. Non-trivial = some configuration found a pagination link.",
 		Enumerate: c13Enumerate,
 		Check:     c13Check,
+		Prepare:   func(tier string) { CrossCorpus(tier) },
 		Bounds: func(tier string) map[string]any {
 			e := 1
 			if tier == "thorough" {
 				e = 2
 			}
-			return map[string]any{"max_edits": e, "atoms": len(c13Alphabet), "configurations": 128}
+			return map[string]any{"max_edits": e, "atoms": len(c13Alphabet), "configurations": 128, "cross": crossBounds(tier)}
 		},
 	})
 }
